@@ -229,6 +229,29 @@ func (e *fnEnc) call(st *state, at ssa.Value, c *ssa.CallCommon, instr ssa.Instr
 	fc := e.contractFor(c)
 	callee := e.staticCallee(c)
 	key := e.calleeKey(c)
+	// host side of a callback: a call through a function-typed parameter for which this
+	// function's contract states a guarantee
+	if prm, isParam := c.Value.(*ssa.Parameter); isParam && e.fc != nil && len(e.fc.Callbacks[prm.Name()]) > 0 {
+		cenv := e.contractEnv(st, e.entry, nil)
+		for i, a := range args {
+			cenv.names[fmt.Sprintf("arg%d", i)] = a
+		}
+		for i, g := range e.fc.Callbacks[prm.Name()] {
+			t := cenv.evalBool(g.Expr)
+			o := e.oblige(st, "callback-guarantee", fmt.Sprintf("%s[%s]", prm.Name(), labelOr(g.Label, i)), c.Pos(), t)
+			o.Src = g.Src
+		}
+		e.havocAll(st)
+		var results []tval
+		rs := c.Signature().Results()
+		for i := 0; i < rs.Len(); i++ {
+			n := e.declare("r_cb", e.sortOf(rs.At(i).Type()))
+			results = append(results, tval{term: n, typ: rs.At(i).Type()})
+			e.assumeWF(st, n, rs.At(i).Type())
+		}
+		e.bindResults(at, results)
+		return
+	}
 	if fc != nil && fc.Inline && callee != nil && callee.Blocks != nil && e.depth < 6 {
 		e.inlineCall(st, at, c, callee, args)
 		return
@@ -275,8 +298,59 @@ func (e *fnEnc) call(st *state, at ssa.Value, c *ssa.CallCommon, instr ssa.Instr
 		o := e.oblige(st, "call-pre", fmt.Sprintf("%s[%s]", shortCallee(key), labelOr(r.Label, i)), c.Pos(), t)
 		o.Src = r.Src
 	}
+	// callbacks: the closure passed for a function-typed parameter must accept whatever the
+	// host guarantees; its effect is applied an unknown number of times
+	cbHavoc := false
+	if len(fc.Callbacks) > 0 && callee != nil {
+		for pi, prm := range callee.Params {
+			gs := fc.Callbacks[prm.Name()]
+			if len(gs) == 0 {
+				continue
+			}
+			cbHavoc = true
+			ai := pi
+			if ai >= len(c.Args) {
+				continue
+			}
+			mc := asClosure(c.Args[ai])
+			if mc == nil {
+				e.structureError(fmt.Sprintf("call of %s: the callback argument is not a function literal", shortCallee(key)))
+				continue
+			}
+			cfn := mc.Fn.(*ssa.Function)
+			cfc := e.V.C.Funcs[funcKey(cfn)]
+			if cfc == nil {
+				if !e.V.SweepSet[funcKey(cfn)] && !e.V.Sweep {
+					e.V.Assumed["callback literal without contract: "+funcKey(cfn)] = true
+				}
+				continue
+			}
+			cfc.Used = true
+			// fresh callback arguments constrained by the host's guarantee
+			var cbArgs []tval
+			genv := e.calleeEnv(st, pre, c, callee, args)
+			for k, cp := range cfn.Params {
+				n := e.declareInput(st, "cbarg_"+cp.Name(), cp.Type())
+				cbArgs = append(cbArgs, tval{term: n, typ: cp.Type()})
+				genv.names[fmt.Sprintf("arg%d", k)] = cbArgs[k]
+			}
+			var gts []string
+			for _, g := range gs {
+				gts = append(gts, genv.evalBool(g.Expr))
+			}
+			renv := e.closureEnv(st, pre, mc, cbArgs)
+			for i, r := range cfc.Requires {
+				t := renv.evalBool(r.Expr)
+				o := e.oblige(st, "callback-pre", fmt.Sprintf("%s[%s]", shortCallee(funcKey(cfn)), labelOr(r.Label, i)), c.Pos(), implies(and(gts...), t))
+				o.Src = r.Src
+			}
+		}
+	}
 	// frame
 	switch {
+	case cbHavoc:
+		e.checkFrameCall(st, c, key)
+		e.havocAll(st)
 	case fc.ModNone || (fc.Pure && !fc.ModSet):
 		e.bumpNext(st)
 	case fc.ModSet && !fc.ModAll:
@@ -369,7 +443,14 @@ func (e *fnEnc) checkFrameCallMods(st *state, c *ssa.CallCommon, fc *FuncContrac
 	for _, m := range fc.Modifies {
 		addrs := cenv.modAddrs(m)
 		for _, a := range addrs {
-			e.frameCheck(st, a.addr, c.Pos(), "call:"+shortCallee(fc.Key))
+			switch {
+			case a.mapObj != "":
+				e.frameCheck(st, a.mapObj, c.Pos(), "call:"+shortCallee(fc.Key))
+			case a.region != "":
+				e.frameCheckRegion(st, a.region, c.Pos(), "call:"+shortCallee(fc.Key))
+			default:
+				e.frameCheck(st, a.addr, c.Pos(), "call:"+shortCallee(fc.Key))
+			}
 		}
 	}
 }
@@ -378,6 +459,17 @@ func (e *fnEnc) checkFrameCallMods(st *state, c *ssa.CallCommon, fc *FuncContrac
 func (e *fnEnc) havocMods(st *state, fc *FuncContract, cenv *env) {
 	for _, m := range fc.Modifies {
 		for _, a := range cenv.modAddrs(m) {
+			if a.mapObj != "" {
+				hk, vk, _, _ := e.mapKeys(a.mapTyp)
+				hs, vs := mapCellSorts[hk], mapCellSorts[vk]
+				nhas := e.declare("mhas", &Sort{name: hs.name})
+				nval := e.declare("mval", &Sort{name: vs.name})
+				e.setHeap(st, hk, hs, fmt.Sprintf("(store %s %s %s)", e.heap(st, hk, hs), a.mapObj, nhas))
+				e.setHeap(st, vk, vs, fmt.Sprintf("(store %s %s %s)", e.heap(st, vk, vs), a.mapObj, nval))
+				nl := e.declare("maplen", sortBV64)
+				e.setHeap(st, "maplen", sortBV64, fmt.Sprintf("(store %s %s %s)", e.heap(st, "maplen", sortBV64), a.mapObj, nl))
+				continue
+			}
 			if a.region != "" {
 				// whole region of a slice: H' = H outside the region
 				es := a.sort
@@ -819,4 +911,57 @@ func (V *Verifier) isKnownPure(key string) bool {
 		}
 	}
 	return false
+}
+
+// frameCheckRegion: a callee writes all elements of a slice; the caller must be allowed to.
+func (e *fnEnc) frameCheckRegion(st *state, sl string, pos token.Pos, what string) {
+	if e.fc == nil || !e.fc.ModSet || e.fc.ModAll {
+		return
+	}
+	cond := or(eq(app("s_len", sl), bvLit(64, 0)), fmt.Sprintf("(>= (rootn (s_base %s)) %s)", sl, e.entry.next))
+	if !e.fc.ModNone {
+		env := e.contractEnv(e.entry, e.entry, nil)
+		var alts []string
+		for _, m := range e.fc.Modifies {
+			alts = append(alts, env.regionInModifies(m, sl))
+		}
+		cond = or(append([]string{cond}, alts...)...)
+	}
+	e.oblige(st, "frame", what, pos, cond)
+}
+
+func asClosure(v ssa.Value) *ssa.MakeClosure {
+	for {
+		switch x := v.(type) {
+		case *ssa.MakeClosure:
+			return x
+		case *ssa.ChangeType:
+			v = x.X
+		default:
+			return nil
+		}
+	}
+}
+
+// closureEnv evaluates a function literal's contract at the place where the literal is
+// passed: parameters are the given argument terms, captured variables are the bindings.
+func (e *fnEnc) closureEnv(st, old *state, mc *ssa.MakeClosure, args []tval) *env {
+	cfn := mc.Fn.(*ssa.Function)
+	en := &env{e: e, st: st, old: old, names: map[string]tval{}, fvAddrs: map[string]tval{}, fn: cfn}
+	if cfn.Pkg != nil {
+		en.pkg = cfn.Pkg.Pkg
+	} else if cfn.Parent() != nil && cfn.Parent().Pkg != nil {
+		en.pkg = cfn.Parent().Pkg.Pkg
+	}
+	for i, p := range cfn.Params {
+		if i < len(args) {
+			en.names[p.Name()] = args[i]
+		}
+	}
+	for i, fv := range cfn.FreeVars {
+		if i < len(mc.Bindings) {
+			en.fvAddrs[fv.Name()] = tval{term: e.val(mc.Bindings[i]), typ: fv.Type()}
+		}
+	}
+	return en
 }
